@@ -8,6 +8,7 @@ import RbpfModel.Lemmas.X86Sim.Alu
 import RbpfModel.Lemmas.X86Sim.MulDiv
 import RbpfModel.Lemmas.X86Sim.Jump
 import RbpfModel.Lemmas.X86Sim.Mem
+import RbpfModel.Lemmas.X86Sim.WholeRun
 namespace Rbpf.JitSim
 open Rbpf.X86 (Cfg St Out Instr step exec decode fetch readMem writeMem)
 open Rbpf.JitAst (AI Tgt checkSeq window)
@@ -15,7 +16,14 @@ open Rbpf.JitAst (AI Tgt checkSeq window)
 def coveredOpcodes : List Nat := aluOpcodes ++ mulDivOpcodes ++ jumpOpcodes ++ memOpcodes
 
 theorem armSim_covered (i : Insn) (h : i.opc.toNat ∈ coveredOpcodes) : ArmSim i := by
-  sorry
+  unfold coveredOpcodes at h
+  rcases List.mem_append.mp h with h | h
+  · rcases List.mem_append.mp h with h | h
+    · rcases List.mem_append.mp h with h | h
+      · exact armSim_alu i h
+      · exact armSim_muldiv i h
+    · exact armSim_jump i h
+  · exact armSim_mem i h
 
 /-- the instruction starts of `p` (what both the compiler and `validate` iterate over) -/
 def starts (p : Bytes) : List (Nat × Insn) := JitAst.sweep p (p.size / 8 + 1) 0
@@ -31,6 +39,11 @@ structure Rel (c : Cfg) (p : Bytes) (L : JitAst.Layout) (retAddr : Nat) (top : L
   start : ∃ i, (s.pc, i) ∈ starts p
   rip : ∃ l, L.pcLocs[s.pc]? = some l ∧ σ.rip = c.codeBase + l
 
+/-- `Rel` is `whole_Rel` of `WholeRun.lean` (where the proofs are, with the class lemmas as a hypothesis) -/
+theorem whole_rel_iff (c : Cfg) (p : Bytes) (L : JitAst.Layout) (retAddr : Nat) (top : List (BitVec 8)) (σ : St) (s : State) :
+    Rel c p L retAddr top σ s ↔ whole_Rel c p L retAddr top σ s :=
+  ⟨fun h => ⟨h.rel0, h.top, h.start, h.rip⟩, fun h => ⟨h.rel0, h.top, h.start, h.rip⟩⟩
+
 /-- one step of the register-transfer semantics that continues is matched by finitely many machine steps, and the
     relation holds again — provided the next pc is still inside the program (a run that falls off the end panics) -/
 theorem jit_step_sim (env : Env) (haddr : Nat → Option Nat) (um ud : Bool) (c : Cfg) (L : JitAst.Layout) (retAddr : Nat)
@@ -40,7 +53,11 @@ theorem jit_step_sim (env : Env) (haddr : Nat → Option Nat) (um ud : Bool) (c 
     (hrel : Rel c env.prog L retAddr top σ s) (hstep : EngineSem.jitStep env s = .next s')
     (hin : ∃ i, (s'.pc, i) ∈ starts env.prog) :
     ∃ k σ', stepsN c k σ = some σ' ∧ Rel c env.prog L retAddr top σ' s' := by
-  sorry
+  obtain ⟨k, σ', hk, h⟩ := whole_step_sim armSim_covered env haddr um ud c L retAddr top σ s s' hv hcov hsize
+    ((whole_rel_iff ..).mp hrel) hstep
+  obtain ⟨j, hj⟩ := hin
+  have hsome : (getInsn? env.prog s'.pc).isSome := by rw [(whole_starts_mem env.prog s'.pc j hj).1]; rfl
+  exact ⟨k, σ', hk, (whole_rel_iff ..).mpr (h hsome)⟩
 
 /-- the top-level `exit`: `ret` pops the landing pad's address -/
 theorem jit_exit_sim (env : Env) (haddr : Nat → Option Nat) (um ud : Bool) (c : Cfg) (L : JitAst.Layout) (retAddr : Nat)
@@ -50,7 +67,8 @@ theorem jit_exit_sim (env : Env) (haddr : Nat → Option Nat) (um ud : Bool) (c 
     (hrel : Rel c env.prog L retAddr top σ s) (hstep : EngineSem.jitStep env s = .done r0 s') :
     ∃ σ', stepsN c 1 σ = some σ' ∧ σ'.rip = retAddr ∧ σ'.get 0 = r0 ∧ MemRel σ'.mem s'.mem ∧
       (σ'.get X86.RSP).toNat = s'.mem.stack.base ∧ topBytes σ' s' = some top := by
-  sorry
+  have _ := hcov   -- not needed: no instruction but `exit` makes `jitExec` return `.done` (`whole_jitExec_done`)
+  exact whole_exit_sim env haddr um ud c L retAddr top σ s s' r0 hv hret hretlt ((whole_rel_iff ..).mp hrel) hstep
 
 /-- runs: if the register-transfer semantics return `r0`, the machine reaches the landing pad with rax = r0, the
     eBPF-visible memory as the semantics left it, rsp at the bottom of the eBPF stack and the saved bytes intact -/
@@ -62,7 +80,8 @@ theorem jit_run_sim (env : Env) (haddr : Nat → Option Nat) (um ud : Bool) (c :
     (hrel : Rel c env.prog L retAddr top σ s)
     (hrun : EngineSem.jitRun env s fuel = .done r0 s') :
     ∃ k σ', stepsN c k σ = some σ' ∧ σ'.rip = retAddr ∧ σ'.get 0 = r0 ∧ MemRel σ'.mem s'.mem ∧
-      (σ'.get X86.RSP).toNat = s'.mem.stack.base ∧ topBytes σ' s' = some top := by
-  sorry
+      (σ'.get X86.RSP).toNat = s'.mem.stack.base ∧ topBytes σ' s' = some top :=
+  whole_run_sim armSim_covered env haddr um ud c L retAddr top fuel σ s s' r0 hv hcov hsize hret hretlt
+    ((whole_rel_iff ..).mp hrel) hrun
 
 end Rbpf.JitSim
